@@ -81,6 +81,10 @@ CURATED_DIGRAPHS = {
     "loop_and_cycle": [("s", "a"), ("a", "b"), ("b", "a"), ("b", "b"), ("b", "t"), ("a", "t")],
     "two_sccs": [("s", "a"), ("a", "a"), ("a", "b"), ("b", "b"), ("b", "t")],
     "parallel_inter_scc": [("s", "a"), ("a", "b"), ("b", "a"), ("a", "c"), ("b", "c"), ("c", "d"), ("d", "c"), ("d", "t")],
+    # a 3-node SCC with three edges into the same sink component (a walk leaves the SCC once: the bundle needs one walk per edge)
+    "scc3_three_exits": [("s", "a"), ("a", "b"), ("b", "d"), ("d", "a"), ("a", "c"), ("b", "c"), ("d", "c")],
+    # two entries into a node that carries a cycle, one exit (a walk may pass the SCC at that node without using an SCC edge)
+    "two_entries_cycle_exit": [("s", "b"), ("r", "b"), ("b", "x"), ("x", "b"), ("b", "t")],
     "entry_two_returns": [("s", "a"), ("a", "b"), ("b", "a"), ("a", "c"), ("c", "a"), ("b", "t")],
     "dag_like": [("s", "a"), ("s", "b"), ("a", "t"), ("b", "t"), ("a", "b")],
     "multi_src_sink_cyc": [("s", "a"), ("r", "a"), ("a", "b"), ("b", "a"), ("b", "t"), ("b", "u")],
